@@ -39,7 +39,7 @@ ASSUMPTIONS = [
     "min/max: any item whose key is extreme is accepted (the docstring does not say which of several equal items is returned)",
     "missing attributes are generated only where the docstring defines the outcome (groupby/map default, selectattr/rejectattr with no test / defined / undefined)",
     "async generators are fed only to filters that have an async variant (first groupby join list map reject rejectattr select selectattr slice sum unique); feeding them to the others is finding F27 (C09)",
-    "sum is generated over ints and lists only: float sums differ in the last ulp between builtin sum (compensated in 3.12) and the async loop - listed as known finding F28",
+    "float sums are judged with a rounding-sized tolerance (float addition is not associative, builtin sum compensates) plus the requirement that all invocations, sync and async, agree exactly",
     "last / length are fed sequences only ('Does not work with generators')",
 ]
 
@@ -203,8 +203,8 @@ def check_case(case):
     finally:
         loop.close()
 
-    # min/max are judged by a predicate: additionally all invocations must agree with each other
-    if name in ("min", "max") and items:
+    # min/max (and float sums) are judged by a predicate: additionally all invocations must agree with each other
+    if name in ("min", "max", "sum") and items:
         for got in results[1:]:
             if not (got is results[0] or fs.same(got, results[0])):
                 raise core.Violation("x|%s(*%r, **%r) with x=%r: invocations disagree: %r vs %r" % (name, args, kwargs, items, results[0], got))
@@ -479,12 +479,15 @@ def _dictsort_case(draw):
 
 
 def _sum_case(draw):
-    mode = draw(st.sampled_from(["int", "int", "attr", "lists"]))
+    mode = draw(st.sampled_from(["int", "int", "attr", "lists", "float"]))
     n = draw(st.integers(0, 8))
     meta = {"kind": mode, "shape": "raw"}
     if mode == "lists":
         items = draw(st.lists(st.lists(st.integers(0, 3), max_size=2), min_size=n, max_size=n))
         params = [("start", draw(st.lists(st.integers(7, 9), max_size=2)))]
+    elif mode == "float":
+        items = draw(st.lists(st.sampled_from([0.1, 0.1, 0.2, 0.3, 0.7, 1.5, -0.1, 1e16, -1e16, 1e-9, 3]), min_size=n, max_size=max(n, 12)))
+        params = _subset(draw, [("start", draw(st.sampled_from([0, 0, 0.5, 10])), 0)])
     else:
         vals = draw(st.lists(st.sampled_from(INT_POOL + [10 ** 20]), min_size=n, max_size=n))
         start = draw(st.sampled_from([0, 0, 5, -1]))
